@@ -1,7 +1,7 @@
 SPECIFICATION Spec
 CONSTANTS
-  Alphabet = {"o", "n", "m3"}
-  MaxLen = 5
-  MaxMarks = 6
+  Alphabet = {"o", "t", "r", "n", "m2", "m3", "m4"}
+  MaxLen = 3
+  MaxMarks = 4
 INVARIANTS MachineIsPosAfter UnionsWellFormed
 PROPERTY Monotone
